@@ -52,6 +52,8 @@ K_XML = 'C18:model:xml-npfloat-repr'
 K_CDIFF = 'C18:stress_energy:fullstress-cdiffstress'
 K_INT = 'C18:E_gsf:integer-typed-query'
 K_POSLIST = 'C18:pos:list-input'
+K_ALT = 'C18:E_gsf:pos-or-xy-with-alternative-vectors'
+K_LISTARG = 'C18:SDVPN:list-arguments'
 
 
 # ----------------------------------------------------------------------------- surfaces
@@ -181,15 +183,146 @@ def _tree_broken():
         return True
 
 
+_PROBE = {}
+
+
+def _tree_alt_broken():
+    """probe of the tree under test for the open finding K_ALT: E_gsf(pos=p, a1vect=, a2vect=) returns the value of
+    another position (cached per process)"""
+    if 'alt' not in _PROBE:
+        try:
+            import atomman as am
+            a = [i / 4 for i in range(4) for j in range(4)]
+            b = [j / 4 for i in range(4) for j in range(4)]
+            e = [math.sin(1.0 + 5 * i + 3.1 * j * j) for i in range(4) for j in range(4)]
+            g = am.defect.GammaSurface(a1vect=[1, 0, 0], a2vect=[0, 1, 0], a1=a, a2=b, E_gsf=e)
+            right = float(g.E_gsf(a1=0.2913, a2=0.4377))
+            got = np.asarray(g.E_gsf(pos=np.array([[0.2913, 0.4377, 0.0]]), a1vect=[1, 1, 0], a2vect=[0, 1, 0]), dtype=float)
+            got2 = np.asarray(g.E_gsf(x=np.array([0.2913]), y=np.array([0.4377]), a2vect=[1, 1, 0]), dtype=float)
+            _PROBE['alt'] = not (abs(float(got.reshape(-1)[0]) - right) < 1e-9 and abs(float(got2.reshape(-1)[0]) - right) < 1e-9)
+        except Exception:
+            _PROBE['alt'] = True
+    return _PROBE['alt']
+
+
+def _tree_listarg_broken():
+    """probe of the tree under test for the open finding K_LISTARG: the SDVPN energy methods raise TypeError when x or
+    the disregistry are given as lists (cached per process)"""
+    if 'listarg' not in _PROBE:
+        try:
+            import atomman as am
+            g = am.defect.GammaSurface(a1vect=[1, 0, 0], a2vect=[0, 0, 1], a1=[0.0, 0.0, 0.5, 0.5], a2=[0.0, 0.5, 0.0, 0.5],
+                                       E_gsf=[0.0, 1.0, 1.0, 2.0])
+            vol = _hand_volterra_class(am)(np.array([1.0, 0, 0]), np.array([0, 1.0, 0]), np.eye(3), np.array([1.0, 0, 0]), np.eye(3))
+            pn = am.defect.SDVPN(volterra=vol, gamma=g)
+            xs = [0.0, 0.5, 1.0, 1.5, 2.0]
+            ds = [[0.0, 0.0, 0.0], [0.25, 0.0, 0.0], [0.5, 0.0, 0.0], [0.75, 0.0, 0.0], [1.0, 0.0, 0.0]]
+            try:
+                pn.disldensity(xs, ds)
+                pn.disldensity(tuple(xs), tuple(tuple(t) for t in ds), cdiff=True)
+                pn.total_energy(xs, ds)
+                pn.total_energy(np.array(xs), ds)
+                pn.total_energy(xs, np.array(ds))
+                _PROBE['listarg'] = False
+            except TypeError:
+                _PROBE['listarg'] = True
+        except Exception:
+            _PROBE['listarg'] = True
+    return _PROBE['listarg']
+
+
 class _BlockedGuard(dict):
-    """min_share of a clause that is blocked completely while K_MULTI is open: empty on such a tree"""
+    """min_share of a clause that is blocked completely while K_MULTI is open: empty on such a tree.  drop: labels
+    carried only by cases that an open finding (K_ALT / K_LISTARG) excludes - not guarded while that finding is open"""
+    def __init__(self, d, drop_alt=(), drop_listarg=()):
+        dict.__init__(self, d)
+        self.drop_alt, self.drop_listarg = tuple(drop_alt), tuple(drop_listarg)
+
     def items(self):
-        return {}.items() if _tree_broken() else dict.items(self)
+        if _tree_broken():
+            return {}.items()
+        d = dict(self)
+        if self.drop_alt and _tree_alt_broken():
+            for k in self.drop_alt:
+                d.pop(k, None)
+        if self.drop_listarg and _tree_listarg_broken():
+            for k in self.drop_listarg:
+                d.pop(k, None)
+        return d.items()
 
 
 def _arg(a, aslist):
     a = np.asarray(a, dtype=float)
     return a.tolist() if aslist else a
+
+
+def _totuple(a):
+    return tuple(_totuple(t) for t in a) if isinstance(a, list) else a
+
+
+def _strided(a):
+    """non-contiguous view holding the values of a (1-D: every second element; 2-D: every second column of a wider
+    array, so that neither the rows nor the columns are contiguous)"""
+    if a.ndim == 1:
+        b = np.full(2 * len(a), 7.25)
+        b[::2] = a
+        return b[::2]
+    b = np.full((a.shape[0], 2 * a.shape[1]), 7.25)
+    b[:, ::2] = a
+    return b[:, ::2]
+
+
+class _Hand:
+    """hands values to atomman in the drawn input form and keeps every object handed over: the caller's objects must be
+    unchanged after the calls (verify).  Forms: 'arr' float C-contiguous ndarray, 'list', 'tuple' (nested), 'ro' read-only
+    ndarray, 'strided' non-contiguous view, 'int' integer-typed ndarray (whole-number values only, otherwise 'arr'),
+    'intlist' list of Python ints (same), 'npscalar' numpy scalars for single values (arrays as 'arr')."""
+
+    def __init__(self, form):
+        self.form = form
+        self.kept = []
+        self.used = set()
+
+    def __call__(self, a, what='', form=None):
+        f = form or self.form
+        a = np.asarray(a, dtype=float)
+        if a.ndim == 0:
+            if f == 'npscalar':
+                return np.float64(a)
+            if f in ('int', 'intlist') and float(a).is_integer():
+                self.used.add('int')
+                return int(a)
+            return float(a)
+        whole = bool(np.all(a == np.rint(a)))
+        if f == 'list':
+            obj = a.tolist()
+        elif f == 'tuple':
+            obj = _totuple(a.tolist())
+        elif f == 'ro':
+            obj = a.copy()
+            obj.setflags(write=False)
+        elif f == 'strided':
+            obj = _strided(a)
+        elif f == 'int' and whole:
+            obj = a.astype(int)
+            self.used.add('int')
+        elif f == 'intlist' and whole:
+            obj = a.astype(int).tolist()
+            self.used.add('int')
+        else:
+            obj = a.copy()
+        snap = obj.copy() if isinstance(obj, np.ndarray) else obj      # lists: tolist() of the float original below
+        self.kept.append((what, obj, snap, a))
+        return obj
+
+    def verify(self, tag=''):
+        for what, obj, snap, a in self.kept:
+            if isinstance(obj, np.ndarray):
+                same = obj.dtype == snap.dtype and np.array_equal(obj, snap)
+            else:
+                same = np.array_equal(np.asarray(obj, dtype=float), a)
+            require(same, lambda: 'the caller\'s %s %s handed to atomman was changed by the call(s): %r, was %r%s'
+                    % (type(obj).__name__, what, np.asarray(obj).tolist(), a.tolist(), tag))
 
 
 def _cmp(got, exp, tol, what):
@@ -420,7 +553,7 @@ def _with_history(case, checks):
     g, info = build_surface(s)
     labels = surface_labels(s, info)
     sm = bool(case['smooth'])
-    checks(g, s, info, case, sm, labels)
+    checks(g, s, info, case, sm, labels, 0)
     h = case.get('hist')
     if h:
         labels.add('history')
@@ -448,7 +581,7 @@ def _with_history(case, checks):
             tag = ' [history round %d on the same object: %s, smooth=%r]' % (num + 2, what, sm)
             try:
                 check_setup(g, held, info)
-                checks(g, held, info, case, sm, set())
+                checks(g, held, info, case, sm, set(), num + 1)
             except Violation as e:
                 raise Violation(e.detail + tag, key=e.key)
     return labels
@@ -462,14 +595,20 @@ def oracle_coords(case):
     return labels
 
 
-def _coords_checks(g, s, info, case, sm, labels):
+def _case_form(case):
+    f = case.get('form') or 'plain'
+    return ('list' if case['aslist'] else 'arr') if f == 'plain' else f
+
+
+def _coords_checks(g, s, info, case, sm, labels, rnd=0):
     A1, A2 = info['A1'], info['A2']
     cond = gsf_ref.basis_cond(A1, A2)
     q = np.array(case['q'], dtype=float)
     u, v = q[:, 0], q[:, 1]
     n = len(q)
-    al = case['aslist']
     scalar = bool(case['scalar'])
+    form = _case_form(case)
+    H = _Hand(form)
     L = max(np.linalg.norm(A1), np.linalg.norm(A2))
     qmax = max(1.0, float(np.abs(q).max()))
     tol_pos = 1e-12 * L * qmax
@@ -478,39 +617,41 @@ def _coords_checks(g, s, info, case, sm, labels):
     if case['xv'] is not None:
         xv = case['xv'][0] * A1 + case['xv'][1] * A2
         labels.add('xvect')
-    kw_x = {} if xv is None else {'xvect': _arg(xv, al)}
+    kw_x = {} if xv is None else {'xvect': H(xv, 'xvect')}
     P = gsf_ref.frac_to_pos(u, v, A1, A2)
     X, Y = gsf_ref.pos_to_xy(P, A1, A2, xv)
     labels.add('npts%d' % n)
-    labels.add('scalar' if scalar else ('list' if al else 'array'))
+    labels.add('scalar' if scalar else ('list' if form == 'list' else 'array'))
+    labels.add('form_' + (case.get('form') or 'plain'))
     if scalar:
         for i in range(n):
-            p = np.asarray(g.a12_to_pos(float(u[i]), float(v[i])), dtype=float)
+            p = np.asarray(g.a12_to_pos(H(u[i]), H(v[i])), dtype=float)
             require(p.shape in ((3,), (1, 3)), lambda: 'a12_to_pos(float, float) returned shape %r' % (p.shape,))
             _cmp(p.reshape(3), P[i], tol_pos, 'a12_to_pos(%r, %r)' % (u[i], v[i]))
-            x1, y1 = g.pos_to_xy(P[i], **kw_x)
+            x1, y1 = g.pos_to_xy(H(P[i], 'pos'), **kw_x)
             require(np.ndim(x1) == 0 and np.ndim(y1) == 0, lambda: 'pos_to_xy(single position) returned shapes %r %r' % (np.shape(x1), np.shape(y1)))
             _cmp([float(x1), float(y1)], [X[i], Y[i]], tol_pos, 'pos_to_xy(single position)')
-            p2 = np.asarray(g.xy_to_pos(float(X[i]), float(Y[i]), **kw_x), dtype=float)
+            p2 = np.asarray(g.xy_to_pos(H(X[i]), H(Y[i]), **kw_x), dtype=float)
             require(p2.shape in ((3,), (1, 3)), lambda: 'xy_to_pos(float, float) returned shape %r' % (p2.shape,))
             _cmp(p2.reshape(3), P[i], 4 * tol_pos, 'xy_to_pos(pos_to_xy(p))')
-            xy = g.a12_to_xy(float(u[i]), float(v[i]), **kw_x)
+            xy = g.a12_to_xy(H(u[i]), H(v[i]), **kw_x)
             _cmp([float(np.asarray(xy[0]).reshape(())), float(np.asarray(xy[1]).reshape(()))], [X[i], Y[i]], 2 * tol_pos, 'a12_to_xy(float, float)')
-            r = g.pos_to_a12(P[i])
+            r = g.pos_to_a12(H(P[i], 'pos'))
             require(np.ndim(r[0]) == 0 and np.ndim(r[1]) == 0, lambda: 'pos_to_a12(single position) returned shapes %r %r' % (np.shape(r[0]), np.shape(r[1])))
             _cmp([float(r[0]), float(r[1])], [u[i], v[i]], tol_uv, 'pos_to_a12(a12_to_pos(a1,a2)) single position')
     else:
-        p = g.a12_to_pos(_arg(u, al), _arg(v, al))
+        p = g.a12_to_pos(H(u, 'a1'), H(v, 'a2'))
         _cmp(p, P, tol_pos, 'a12_to_pos(%d points)' % n)
-        x1, y1 = _shape_pair(g.pos_to_xy(P, **kw_x), n, 'pos_to_xy')
+        x1, y1 = _shape_pair(g.pos_to_xy(H(P, 'pos'), **kw_x), n, 'pos_to_xy')
         _cmp(x1, X, tol_pos, 'pos_to_xy x'); _cmp(y1, Y, tol_pos, 'pos_to_xy y')
-        p2 = g.xy_to_pos(_arg(X, al), _arg(Y, al), **kw_x)
+        p2 = g.xy_to_pos(H(X, 'x'), H(Y, 'y'), **kw_x)
         _cmp(p2, P, 4 * tol_pos, 'xy_to_pos(pos_to_xy(p)) for %d points' % n)
-        x2, y2 = _shape_pair(g.a12_to_xy(_arg(u, al), _arg(v, al), **kw_x), n, 'a12_to_xy')
+        x2, y2 = _shape_pair(g.a12_to_xy(H(u, 'a1'), H(v, 'a2'), **kw_x), n, 'a12_to_xy')
         _cmp(x2, X, 2 * tol_pos, 'a12_to_xy x'); _cmp(y2, Y, 2 * tol_pos, 'a12_to_xy y')
         # mutual inverses through atomman only
         x3, y3 = g.pos_to_xy(np.asarray(p2), **kw_x)
         _cmp(x3, X, 8 * tol_pos, 'pos_to_xy(xy_to_pos(x,y)) x'); _cmp(y3, Y, 8 * tol_pos, 'pos_to_xy(xy_to_pos(x,y)) y')
+    H.verify(' [conversion methods]')
     # energy at a single Cartesian position = energy at its fractional coordinates (1-D pos is not blocked)
     rng = info['Erange']
     for i in range(min(n, 2)):
@@ -520,9 +661,15 @@ def _coords_checks(g, s, info, case, sm, labels):
         base, lo, hi, hit = eval_band(g.E_gsf, u[i], v[i], sm, bool(s['dup']))
         if hit:
             labels.add('seam_band')
-        e_p = g.E_gsf(pos=P[i].copy(), smooth=sm)
+        e_p = g.E_gsf(pos=H(P[i], 'pos'), smooth=sm)
         require(np.ndim(e_p) == 0, lambda: 'E_gsf(pos=single position) returned shape %r' % (np.shape(e_p),))
         _in_band(float(e_p), lo, hi, 1e-8 * rng * cond, 'E_gsf(pos=p, smooth=%r) vs E_gsf(a1=%r, a2=%r)' % (sm, u[i], v[i]))
+        # the same query given in the drawn input form (single values: Python / numpy scalars, ints for whole numbers)
+        e_a = g.E_gsf(a1=H(u[i]), a2=H(v[i]), smooth=sm)
+        _in_band(float(e_a), lo, hi, 1e-9 * rng, 'E_gsf(a1=%r, a2=%r, smooth=%r) given as %s' % (u[i], v[i], sm, form))
+    H.verify(' [E_gsf]')
+    if 'int' in H.used:
+        labels.add('int_typed')
     # documented refusal: xvect out of the fault plane
     if xv is not None and n == 1:
         bad = xv + 0.3 * np.linalg.norm(xv) * np.cross(A1, A2) / np.linalg.norm(np.cross(A1, A2))
@@ -535,54 +682,80 @@ def _coords_checks(g, s, info, case, sm, labels):
             raise Violation('pos_to_xy with an xvect out of the fault plane did not raise ValueError')
 
 
+_DEFER = []          # keyed Violations of an open finding met in a case: raised after everything else has been judged
+
+
 def oracle_coords_multi(case):
     """everything that sends an (N,3) array through pos_to_a12: pos_to_a12 itself, xy_to_a12, E_gsf/delta(pos= | x=,y= |
-    alternative a1vect/a2vect)"""
+    alternative a1vect/a2vect), with every legal combination of the optional keywords a1vect, a2vect, xvect"""
+    del _DEFER[:]
     labels = _with_history(case, _multi_checks)
     if 'oblique' in labels or len(case['q']) > 1 or not case['scalar']:
         labels.add('nt')
+    if _DEFER:
+        raise _DEFER[0]
     return labels
 
 
-def _multi_checks(g, s, info, case, sm, labels):
+def _alt_vector_sets(case, s):
+    """the legal ways of giving alternative shift vectors: both, a1vect only (a2vect stays the stored one), a2vect only.
+    Yields (name, Meff, kwargs as crystal vectors); row k of Meff holds the coefficients of alternative vector k in the
+    stored (a1vect, a2vect).  A single alternative vector has to form a basis with the other stored one: a zero
+    coefficient on the diagonal of the drawn matrix is replaced by 1."""
+    M = np.array(case['alt'], dtype=float)
+    a1c, a2c = np.array(s['a1v3'], dtype=float), np.array(s['a2v3'], dtype=float)
+    r0 = M[0] if M[0, 0] != 0 else np.array([1.0, M[0, 1]])
+    r1 = M[1] if M[1, 1] != 0 else np.array([M[1, 0], 1.0])
+    for name, Me in (('both', M), ('a1only', np.array([r0, [0.0, 1.0]])), ('a2only', np.array([[1.0, 0.0], r1]))):
+        B1 = Me[0, 0] * a1c + Me[0, 1] * a2c
+        B2 = Me[1, 0] * a1c + Me[1, 1] * a2c
+        yield name, Me, B1, B2
+
+
+def _multi_checks(g, s, info, case, sm, labels, rnd=0):
     if _multipoint_broken(g, info):
         raise Violation('pos_to_a12 on an (N,3) array of in-plane positions raises / returns wrong values '
                         '(np.linalg.solve takes the (N,3) right-hand side for a matrix)', key=K_MULTI)
     A1, A2 = info['A1'], info['A2']
+    V = info['V']
     cond = gsf_ref.basis_cond(A1, A2)
     q = np.array(case['q'], dtype=float)
     u, v = q[:, 0], q[:, 1]
     n = len(q)
-    al = case['aslist']
     scalar = bool(case['scalar'])
+    form = _case_form(case)
+    H = _Hand(form)
     qmax = max(1.0, float(np.abs(q).max()))
     tol_uv = 1e-11 * cond * qmax
+    Lmax = max(np.linalg.norm(A1), np.linalg.norm(A2))
     xv = None
     if case['xv'] is not None:
         xv = case['xv'][0] * A1 + case['xv'][1] * A2
         labels.add('xvect')
-    kw_x = {} if xv is None else {'xvect': _arg(xv, al)}
+    kw_x = {} if xv is None else {'xvect': H(xv, 'xvect')}
     P = gsf_ref.frac_to_pos(u, v, A1, A2)
     X, Y = gsf_ref.pos_to_xy(P, A1, A2, xv)
     labels.add('npts%d' % n)
-    labels.add('scalar' if scalar else ('list' if al else 'array'))
+    labels.add('scalar' if scalar else ('list' if form == 'list' else 'array'))
+    labels.add('form_' + (case.get('form') or 'plain'))
     labels.add('smooth' if sm else 'nearest')
     # --- conversions back to fractional coordinates
-    gu, gv = _shape_pair(g.pos_to_a12(P.copy()), n, 'pos_to_a12((%d,3) array)' % n)
+    gu, gv = _shape_pair(g.pos_to_a12(H(P, 'pos')), n, 'pos_to_a12((%d,3) array)' % n)
     _cmp(gu, u, tol_uv, 'pos_to_a12(a12_to_pos(a1,a2)) a1, %d points' % n)
     _cmp(gv, v, tol_uv, 'pos_to_a12(a12_to_pos(a1,a2)) a2, %d points' % n)
     if scalar:
-        r = g.xy_to_a12(float(X[0]), float(Y[0]), **kw_x)
+        r = g.xy_to_a12(H(X[0]), H(Y[0]), **kw_x)
         _cmp([float(np.asarray(r[0]).reshape(())), float(np.asarray(r[1]).reshape(()))], [u[0], v[0]], 2 * tol_uv, 'xy_to_a12(float, float)')
     else:
-        hu, hv = _shape_pair(g.xy_to_a12(_arg(X, al), _arg(Y, al), **kw_x), n, 'xy_to_a12')
+        hu, hv = _shape_pair(g.xy_to_a12(H(X, 'x'), H(Y, 'y'), **kw_x), n, 'xy_to_a12')
         _cmp(hu, u, 2 * tol_uv, 'xy_to_a12(a12_to_xy(a1,a2)) a1'); _cmp(hv, v, 2 * tol_uv, 'xy_to_a12(a12_to_xy(a1,a2)) a2')
     # through atomman only: a12 -> pos -> a12, a12 -> xy -> a12
-    r = g.pos_to_a12(np.asarray(g.a12_to_pos(u, v)))
+    r = g.pos_to_a12(np.asarray(g.a12_to_pos(H(u, 'a1'), H(v, 'a2'))))
     _cmp(r[0], u, tol_uv, 'pos_to_a12 o a12_to_pos a1'); _cmp(r[1], v, tol_uv, 'pos_to_a12 o a12_to_pos a2')
-    xx, yy = g.a12_to_xy(u, v, **kw_x)
+    xx, yy = g.a12_to_xy(H(u, 'a1'), H(v, 'a2'), **kw_x)
     r = g.xy_to_a12(xx, yy, **kw_x)
     _cmp(r[0], u, 2 * tol_uv, 'xy_to_a12 o a12_to_xy a1'); _cmp(r[1], v, 2 * tol_uv, 'xy_to_a12 o a12_to_xy a2')
+    H.verify(' [conversions to fractional coordinates]')
     # --- the three ways of giving a position to E_gsf / delta agree
     ok = np.ones(n, dtype=bool)
     if not sm:
@@ -594,41 +767,105 @@ def _multi_checks(g, s, info, case, sm, labels):
     fns = [('E_gsf', g.E_gsf, info['Erange'])]
     if info['D'] is not None:
         fns.append(('delta', g.delta, info['Drange']))
-    alt = case['alt']
+    bands = {}
     for name, fn, rng in fns:
         tol = 1e-8 * rng * cond
         seam = bool(s['dup']) or name == 'delta'
         ef, lo, hi, hit = eval_band(fn, u, v, sm, seam)
+        bands[name] = (lo, hi, tol)
         if hit:
             labels.add('seam_band')
-        ef2 = np.asarray(fn(a1=_arg(u, al), a2=_arg(v, al), smooth=sm), dtype=float)
-        _cmp(ef2, ef, 0.0, '%s(a1=, a2=) list vs array input' % name)
-        ep = np.asarray(fn(pos=P.copy(), smooth=sm), dtype=float)
+        ef2 = np.asarray(fn(a1=H(u, 'a1'), a2=H(v, 'a2'), smooth=sm), dtype=float)
+        _cmp(ef2, ef, 0.0, '%s(a1=, a2=) given as %s vs float array input' % (name, form))
+        ep = np.asarray(fn(pos=H(P, 'pos'), smooth=sm), dtype=float)
         require(ef.shape == (n,) and ep.shape == (n,), lambda: '%s shapes: a1/a2 %r, pos %r for %d points' % (name, ef.shape, ep.shape, n))
         _in_band(ep[ok], lo[ok], hi[ok], tol, '%s(pos=(%d,3) array, smooth=%r) vs %s(a1=, a2=)' % (name, n, sm, name))
         if scalar:
-            exy = np.array([float(np.asarray(fn(x=float(X[i]), y=float(Y[i]), smooth=sm, **kw_x)).reshape(())) for i in range(n)])
+            exy = np.array([float(np.asarray(fn(x=H(X[i]), y=H(Y[i]), smooth=sm, **kw_x)).reshape(())) for i in range(n)])
         else:
-            exy = np.asarray(fn(x=_arg(X, al), y=_arg(Y, al), smooth=sm, **kw_x), dtype=float)
+            exy = np.asarray(fn(x=H(X, 'x'), y=H(Y, 'y'), smooth=sm, **kw_x), dtype=float)
         require(exy.shape == (n,), lambda: '%s(x=, y=) returned shape %r for %d points' % (name, exy.shape, n))
         _in_band(exy[ok], lo[ok], hi[ok], tol, '%s(x=, y=%s, smooth=%r) vs %s(a1=, a2=)' % (name, '' if xv is None else ', xvect=', sm, name))
-        if alt is not None:
-            # alternative in-plane shift vectors B1 = M00 a1 + M01 a2, B2 = M10 a1 + M11 a2 (crystal vectors);
-            # the same positions have coordinates (s,t) with  s*B1 + t*B2 = u*a1 + v*a2
-            M = np.array(alt, dtype=float)
-            st_ = np.linalg.solve(M.T, np.array([u, v]))
-            B1 = M[0, 0] * np.array(s['a1v3']) + M[0, 1] * np.array(s['a2v3'])
-            B2 = M[1, 0] * np.array(s['a1v3']) + M[1, 1] * np.array(s['a2v3'])
-            ea = np.asarray(fn(a1=_arg(st_[0], al), a2=_arg(st_[1], al), a1vect=_arg(B1, al), a2vect=_arg(B2, al), smooth=sm), dtype=float)
-            require(ea.shape == (n,), lambda: '%s(a1vect=, a2vect=) returned shape %r for %d points' % (name, ea.shape, n))
-            condM = float(np.linalg.cond(M))
-            _in_band(ea[ok], lo[ok], hi[ok], tol * condM * 4, '%s(a1=, a2=, a1vect=%r, a2vect=%r) vs the same positions in the stored vectors' % (name, B1.tolist(), B2.tolist()))
+    H.verify(' [E_gsf / delta]')
+    # --- every legal combination of the optional keywords: alternative a1vect and/or a2vect (crystal vectors
+    #     B1 = M00 a1 + M01 a2, B2 = M10 a1 + M11 a2; the same positions have coordinates (s,t) with s*B1 + t*B2 =
+    #     u*a1 + v*a2) x plotting axis default / explicit.  Documented default of xvect: the Cartesian of a1vect, i.e. of
+    #     the alternative a1vect when one is given.  In the history rounds one vector set per round.
+    if case['alt'] is not None:
+        xvc = case.get('xvc') or [1, -1]
+        xve = xvc[0] * A1 + xvc[1] * A2
+        sets = list(_alt_vector_sets(case, s))
+        if rnd:
+            sets = [sets[rnd % 3]]
+        for aname, Me, B1, B2 in sets:
+            st_ = np.linalg.solve(Me.T, np.array([u, v]))
+            condM = float(np.linalg.cond(Me))
+            B1c, B2c = B1 @ V, B2 @ V
+            condB = gsf_ref.basis_cond(B1c, B2c)
+            stmax = max(1.0, float(np.abs(st_).max()))
+            tol_st = 4e-11 * condB * max(stmax, qmax) * condM
+            tol_p = 1e-11 * max(np.linalg.norm(B1c), np.linalg.norm(B2c), Lmax) * max(stmax, qmax) * condM
+            ka = {}
+            given = ([B1] if aname != 'a2only' else []) + ([B2] if aname != 'a1only' else [])
+            vform = None
+            if case.get('altint') and all(bool(np.all(t == np.rint(t))) for t in given):
+                vform = 'intlist' if form in ('list', 'tuple', 'arr') else 'int'
+                labels.add('altvect_int')
+            if aname != 'a2only':
+                ka['a1vect'] = H(B1, 'a1vect', form=vform)
+            if aname != 'a1only':
+                ka['a2vect'] = H(B2, 'a2vect', form=vform)
+            tag = ' [a1vect=%r, a2vect=%r]' % (B1.tolist() if 'a1vect' in ka else None, B2.tolist() if 'a2vect' in ka else None)
+            pp = g.a12_to_pos(H(st_[0], 'a1'), H(st_[1], 'a2'), **ka)
+            _cmp(pp, P, tol_p, 'a12_to_pos(a1, a2, alternative vectors)' + tag)
+            r = g.pos_to_a12(H(P, 'pos'), **ka)
+            _cmp(r[0], st_[0], tol_st, 'pos_to_a12(alternative vectors) a1' + tag); _cmp(r[1], st_[1], tol_st, 'pos_to_a12(alternative vectors) a2' + tag)
+            for xname in ('xdefault', 'xexplicit'):
+                kx = {} if xname == 'xdefault' else {'xvect': H(xve, 'xvect')}
+                xeff = xve if kx else (B1c if 'a1vect' in ka else A1)
+                Xc, Yc = gsf_ref.pos_to_xy(P, A1, A2, xeff)
+                tg = tag + (' [xvect=%r]' % xve.tolist() if kx else ' [default xvect]')
+                x1, y1 = _shape_pair(g.a12_to_xy(H(st_[0], 'a1'), H(st_[1], 'a2'), **ka, **kx), n, 'a12_to_xy' + tg)
+                _cmp(x1, Xc, tol_p, 'a12_to_xy x' + tg); _cmp(y1, Yc, tol_p, 'a12_to_xy y' + tg)
+                r = _shape_pair(g.xy_to_a12(H(Xc, 'x'), H(Yc, 'y'), **ka, **kx), n, 'xy_to_a12' + tg)
+                _cmp(r[0], st_[0], 2 * tol_st, 'xy_to_a12 a1' + tg); _cmp(r[1], st_[1], 2 * tol_st, 'xy_to_a12 a2' + tg)
+                r = g.xy_to_a12(x1, y1, **ka, **kx)
+                _cmp(r[0], st_[0], 4 * tol_st, 'xy_to_a12 o a12_to_xy a1' + tg); _cmp(r[1], st_[1], 4 * tol_st, 'xy_to_a12 o a12_to_xy a2' + tg)
+                labels.add('combo_%s_%s' % (aname, xname))
+                for name, fn, rng in fns:
+                    lo, hi, tol = bands[name]
+                    exy = np.asarray(fn(x=H(Xc, 'x'), y=H(Yc, 'y'), smooth=sm, **ka, **kx), dtype=float)
+                    _alt_judge(name + '(x=, y=, alternative vectors)' + tg, exy, fn, st_, sm, ok, lo, hi, tol * condM * 4, n)
+            for name, fn, rng in fns:
+                lo, hi, tol = bands[name]
+                ea = np.asarray(fn(a1=H(st_[0], 'a1'), a2=H(st_[1], 'a2'), smooth=sm, **ka), dtype=float)
+                require(ea.shape == (n,), lambda: '%s(a1vect=, a2vect=) returned shape %r for %d points' % (name, ea.shape, n))
+                _in_band(ea[ok], lo[ok], hi[ok], tol * condM * 4, '%s(a1=, a2=, alternative vectors) vs the same positions in the stored vectors%s' % (name, tag))
+                ep = np.asarray(fn(pos=H(P, 'pos'), smooth=sm, **ka), dtype=float)
+                _alt_judge(name + '(pos=, alternative vectors)' + tag, ep, fn, st_, sm, ok, lo, hi, tol * condM * 4, n)
             labels.add('altvect')
-            # conversions with alternative vectors
-            r = g.pos_to_a12(P.copy(), a1vect=B1, a2vect=B2)
-            _cmp(r[0], st_[0], tol_uv * condM * 4, 'pos_to_a12(a1vect=, a2vect=) a1'); _cmp(r[1], st_[1], tol_uv * condM * 4, 'pos_to_a12(a1vect=, a2vect=) a2')
+            H.verify(' [alternative vectors]')
+    # --- whole-number plotting coordinates given as integers (any (x, y) is a legal plotting coordinate)
+    if H.form == 'int':
+        Xi, Yi = np.rint(X), np.rint(Y)
+        Pi = gsf_ref.xy_to_pos(Xi, Yi, A1, A2, xv)
+        ui, vi = gsf_ref.pos_to_frac(Pi, A1, A2)
+        imax = max(1.0, float(np.abs(ui).max()), float(np.abs(vi).max()))
+        pp = g.xy_to_pos(H(Xi, 'x'), H(Yi, 'y'), **kw_x)
+        _cmp(pp, Pi, 1e-11 * max(1.0, float(np.abs(Pi).max())), 'xy_to_pos(integer x, integer y)')
+        r = _shape_pair(g.xy_to_a12(H(Xi, 'x'), H(Yi, 'y'), **kw_x), n, 'xy_to_a12(integer x, y)')
+        _cmp(r[0], ui, 2e-11 * cond * imax, 'xy_to_a12(integer x, y) a1'); _cmp(r[1], vi, 2e-11 * cond * imax, 'xy_to_a12(integer x, y) a2')
+        oki = np.ones(n, dtype=bool)
+        if not sm:
+            oki = np.array([not (gsf_ref.nearest_index(a, info['n1'], 1e-7)[1] or gsf_ref.nearest_index(b, info['n2'], 1e-7)[1]) for a, b in zip(ui, vi)])
+        base, lo, hi, hit = eval_band(g.E_gsf, ui, vi, sm, bool(s['dup']))
+        e = np.asarray(g.E_gsf(x=H(Xi, 'x'), y=H(Yi, 'y'), smooth=sm, **kw_x), dtype=float)
+        _in_band(e[oki], lo[oki], hi[oki], 1e-8 * info['Erange'] * cond, 'E_gsf(x=, y=) with integer-typed plotting coordinates')
+        H.verify(' [integer plotting coordinates]')
+    if 'int' in H.used:
+        labels.add('int_typed')
     # --- Cartesian positions given as a plain list (array-like)
-    if al:
+    if form in ('list', 'tuple'):
         try:
             r = g.pos_to_a12(P.tolist())
             _cmp(r[0], u, tol_uv, 'pos_to_a12(list of positions) a1')
@@ -642,6 +879,23 @@ def _multi_checks(g, s, info, case, sm, labels):
                 raise Violation('Cartesian positions given as a list (array-like per docstring): %s' % e, key=K_POSLIST)
             raise
         labels.add('pos_list')
+
+
+def _alt_judge(what, got, fn, st_, sm, ok, lo, hi, tol, n):
+    """E_gsf / delta of positions given as pos= or x=, y= TOGETHER with alternative a1vect/a2vect: the value belongs to
+    the position (the alternative vectors only name the fractional coordinates and the default plotting axis; that is
+    what E_gsf(a1=, a2=, a1vect=, a2vect=) does: a1, a2 -> position -> stored vectors).  While the finding K_ALT is open
+    on the tree under test (the coordinates in the alternative vectors are looked up as if they referred to the stored
+    ones, i.e. the value of another position is returned) a failure in this input class is keyed and deferred."""
+    require(got.shape == (n,), lambda: '%s returned shape %r for %d points' % (what, got.shape, n))
+    try:
+        _in_band(got[ok], lo[ok], hi[ok], tol, what + ' vs the same positions through a1=, a2= in the stored vectors')
+    except Violation as e:
+        if _tree_alt_broken():
+            if not _DEFER:
+                _DEFER.append(Violation(e.detail, key=K_ALT))
+            return
+        raise
 
 
 # ----------------------------------------------------------------------------- model
@@ -835,7 +1089,10 @@ def build_profile(pr, b_mnx):
     N = pr['N']
     bmag = float(np.linalg.norm(b_mnx))
     dx = bmag / pr['kstep']
-    if pr['x0'] is None:
+    if pr.get('xint'):
+        dx = float(pr['xint']['dx'])
+        x = float(pr['xint']['x0']) + np.arange(N) * dx
+    elif pr['x0'] is None:
         x = (np.arange(N) - (N - 1) / 2.0) * dx
     else:
         x = pr['x0'] + np.arange(N) * dx
@@ -848,12 +1105,16 @@ def build_profile(pr, b_mnx):
     for comp, (amp, k), ramp in ((0, pr['pert'][0], pr['ramp'][0]), (2, pr['pert'][1], pr['ramp'][1])):
         d[:, comp] += amp * bmag * np.sin(math.pi * k * t) + ramp * bmag * t
     d[:, 1] = 0.0
+    if pr.get('round'):
+        d = np.rint(d) + 0.0
     return x, d
 
 
-def make_sdvpn(S, st_, x=None, d=None):
+def make_sdvpn(S, st_, x=None, d=None, H=None):
     import atomman as am
-    kw = dict(tau=np.array(st_['tau']), beta=np.array(st_['beta']), fullstress=st_['fullstress'],
+    H = H or _Hand('arr')
+    tb = st_.get('tbform') or 'arr'
+    kw = dict(tau=H(st_['tau'], 'tau', form=tb), beta=H(st_['beta'], 'beta', form=tb), fullstress=st_['fullstress'],
               cdiffelastic=st_['cdiffelastic'], cdiffsurface=st_['cdiffsurface'], cdiffstress=st_['cdiffstress'])
     if st_['alpha'] is not None:
         kw['alpha'] = st_['alpha']
@@ -921,18 +1182,20 @@ def _close(got, exp, scale, what, rel=1e-10, extra=0.0):
 _SET_KEYS = ('tau', 'alpha', 'beta', 'cutoff', 'fullstress', 'cdiffelastic', 'cdiffsurface', 'cdiffstress')
 
 
-def apply_settings(pn, cur, chg):
+def apply_settings(pn, cur, chg, H=None):
     """change settings of an existing object through its public attribute setters; returns my updated description.
     cutoff None = the documented default 1000 (angstrom), alpha None = the documented default 0.0"""
     cur = dict(cur)
+    H = H or _Hand('arr')
+    tb = cur.get('tbform') or 'arr'
     for k in _SET_KEYS:
         if k not in chg:
             continue
         v = chg[k]
         if k == 'tau':
-            pn.tau = np.array(v, dtype=float)
+            pn.tau = H(v, 'tau', form=tb)
         elif k == 'beta':
-            pn.beta = np.array(v, dtype=float)
+            pn.beta = H(v, 'beta', form=tb)
         elif k == 'alpha':
             pn.alpha = 0.0 if v is None else v
         elif k == 'cutoff':
@@ -953,14 +1216,22 @@ def step_profile(step, base, prev, nmax=200):
     if kind in ('same', 'shift', 'spacing'):
         p['N'] = prev['N']
     if kind == 'same':
-        p['kstep'], p['x0'] = prev['kstep'], prev['x0']
+        p['kstep'], p['x0'], p['xint'] = prev['kstep'], prev['x0'], prev.get('xint')
     elif kind == 'shift':
         p['kstep'] = prev['kstep']
-        if p['x0'] == prev['x0']:
-            p['x0'] = -2.5 if prev['x0'] == 1.625 else 1.625
+        if prev.get('xint'):
+            p['xint'] = {'x0': prev['xint']['x0'] + 3, 'dx': prev['xint']['dx']}
+        else:
+            p['xint'] = None
+            if p['x0'] == prev['x0']:
+                p['x0'] = -2.5 if prev['x0'] == 1.625 else 1.625
     elif kind == 'spacing':
-        if p['kstep'] == prev['kstep']:
-            p['kstep'] = prev['kstep'] + 1 if prev['kstep'] < 20 else prev['kstep'] - 1
+        if p.get('xint') and prev.get('xint'):
+            if p['xint']['dx'] == prev['xint']['dx']:
+                p['xint'] = {'x0': p['xint']['x0'], 'dx': 3 - prev['xint']['dx']}
+        elif not p.get('xint') and not prev.get('xint'):
+            if p['kstep'] == prev['kstep']:
+                p['kstep'] = prev['kstep'] + 1 if prev['kstep'] < 20 else prev['kstep'] - 1
     else:
         p['N'] = min(p['N'], nmax)
         if p['N'] == prev['N']:
@@ -968,24 +1239,68 @@ def step_profile(step, base, prev, nmax=200):
     return p
 
 
-def hand_over(pn, x, d, via, listx=False):
-    """give (x, disregistry) to the object by one of the public routes; returns (args, kwargs) for the energy methods"""
+_LISTY = ('list', 'tuple', 'intlist')
+
+
+def arg_form(f, listargs):
+    """form of an x / disregistry given as an ARGUMENT of an energy method.  Lists and tuples go there only in the cases
+    drawn for it (listargs); while the finding K_LISTARG is open they are replaced by arrays and the finding is deferred"""
+    if f not in _LISTY:
+        return f
+    if not listargs:
+        return 'arr'
+    if _tree_listarg_broken():
+        if not _DEFER:
+            _DEFER.append(Violation('SDVPN energy methods (disldensity, *_energy) with x or disregistry given as a list / tuple '
+                                    '(docstring: array-like object) raise TypeError: they slice and subtract the arguments as given',
+                                    key=K_LISTARG))
+        return 'arr'
+    return f
+
+
+def hand_over(pn, x, d, via, H=None, fx='arr', fd='arr', listargs=False, labels=None):
+    """give (x, disregistry) to the object by one of the public routes, in the forms fx / fd; every object handed over
+    is kept by H (the caller's objects must be unchanged afterwards); returns (args, kwargs) for the energy methods"""
+    H = H or _Hand('arr')
+    ax, ad = arg_form(fx, listargs), arg_form(fd, listargs)
+    if labels is not None and listargs and ((via in ('args', 'kw', 'x_arg') and ax in _LISTY) or (via in ('args', 'kw', 'd_arg') and ad in _LISTY)):
+        labels.add('list_args')
     if via == 'args':
-        return (x.copy(), d.copy()), {}
+        return (H(x, 'x', form=ax), H(d, 'disregistry', form=ad)), {}
     if via == 'kw':
-        return (), {'x': x.copy(), 'disregistry': d.copy()}
+        return (), {'x': H(x, 'x', form=ax), 'disregistry': H(d, 'disregistry', form=ad)}
     if via == 'setter':
-        pn.x = x.tolist() if listx else x.copy()
-        pn.disregistry = d.copy()
+        pn.x = H(x, 'x', form=fx)
+        pn.disregistry = H(d, 'disregistry', form=fd)
         _cmp(pn.x, x, 0.0, 'x after assignment'); _cmp(pn.disregistry, d, 0.0, 'disregistry after assignment')
         return (), {}
     if via == 'x_arg':
-        pn.disregistry = d.copy()
-        return (), {'x': x.copy()}
+        pn.disregistry = H(d, 'disregistry', form=fd)
+        return (), {'x': H(x, 'x', form=ax)}
     if via == 'd_arg':
-        pn.x = x.copy()
-        return (), {'disregistry': d.copy()}
+        pn.x = H(x, 'x', form=fx)
+        return (), {'disregistry': H(d, 'disregistry', form=ad)}
     raise ValueError(via)
+
+
+def form_labels(labels, H, fx, fd):
+    if fx != 'arr':
+        labels.add('xform_' + fx)
+    if fd != 'arr':
+        labels.add('dform_' + fd)
+    if fx != 'arr' or fd != 'arr':
+        labels.add('forms')
+    if 'int' in H.used:
+        labels.add('int_typed')
+
+
+def check_stored(pn, x, d, via, tag=''):
+    """what the object holds is what was given, after any number of energy evaluations"""
+    if via in ('setter', 'x_arg', 'd_arg'):
+        if via != 'x_arg':
+            _cmp(pn.x, x, 0.0, 'stored x after the energy evaluations' + tag)
+        if via != 'd_arg':
+            _cmp(pn.disregistry, d, 0.0, 'stored disregistry after the energy evaluations' + tag)
 
 
 def history_labels(labels, step, via, x, xprev, xbase, moved_away):
@@ -1034,10 +1349,19 @@ def run_history(case, S, pn, st_, x, d, labels, judge, nmax=200):
         if not np.array_equal(xs, x):
             moved = True
         try:
+            H = _Hand('arr')
             if step.get('chg'):
-                cur = apply_settings(pn, cur, step['chg'])
-            a, kw = hand_over(pn, xs, ds, via)
+                cur = apply_settings(pn, cur, step['chg'], H)
+            fx, fd = p.get('fx') or 'arr', p.get('fd') or 'arr'
+            a, kw = hand_over(pn, xs, ds, via, H, fx, fd, bool(case.get('listargs')), labels)
+            if fx != 'arr' or fd != 'arr':
+                labels.add('history_forms')
             judge(pn, cur, xs, ds, a, kw, set(), tag)
+            # the caller's arrays and what the object holds are unchanged by the evaluations
+            H.verify(' [after the energy evaluations]')
+            check_stored(pn, xs, ds, via)
+            if 'int' in H.used:
+                labels.add('int_typed')
         except Violation as e:
             raise Violation(e.detail + tag, key=e.key)
         prev, xprev = p, xs
@@ -1111,18 +1435,24 @@ def judge_terms(pn, S, K, st_, x, d, a, kw, labels):
 def oracle_pn_terms(case):
     S = build_pn_system(case['sys'])
     st_ = case['set']
-    x, d = build_profile(case['prof'], S['b'])
-    pn = make_sdvpn(S, st_)
+    del _DEFER[:]
+    pf = case['prof']
+    x, d = build_profile(pf, S['b'])
+    H = _Hand('arr')
+    pn = make_sdvpn(S, st_, H=H)
     labels = pn_labels(case, S, d)
     check_frame(pn, S)
     K = np.asarray(pn.K_tensor, dtype=float)           # verified above
+    fx, fd = pf.get('fx') or 'arr', pf.get('fd') or 'arr'
+    via = 'setter' if st_['stored'] else 'args'
+    a, kw = hand_over(pn, x, d, via, H, fx, fd, bool(case.get('listargs')), labels)
     if st_['stored']:
-        a, kw = hand_over(pn, x, d, 'setter', listx=st_['via_solve_kw'])
         labels.add('stored')
-    else:
-        a, kw = hand_over(pn, x, d, 'args')
     N = len(x)
     e_el, sc = judge_terms(pn, S, K, st_, x, d, a, kw, labels)
+    H.verify(' [after the energy evaluations]')
+    check_stored(pn, x, d, via)
+    form_labels(labels, H, fx, fd)
     # quadratic form: E(s*delta) = s^2 E(delta); parallelogram law with a second profile; rigid shift
     s_ = case['s']
     e_s = pn.elastic_energy(x, s_ * d)
@@ -1140,6 +1470,8 @@ def oracle_pn_terms(case):
     # object history: further evaluations on the same object, each against the independent formulas
     run_history(case, S, pn, st_, x, d, labels,
                 lambda pn_, cur, xs, ds, a_, kw_, labs, tag: judge_terms(pn_, S, K, cur, xs, ds, a_, kw_, labs))
+    if _DEFER:
+        raise _DEFER[0]
     return labels
 
 
@@ -1214,16 +1546,22 @@ def oracle_pn_total(case):
     S = build_pn_system(case['sys'])
     blocked_multi(S)
     st_ = case['set']
-    x, d = build_profile(case['prof'], S['b'])
-    pn = make_sdvpn(S, st_)
+    del _DEFER[:]
+    pf = case['prof']
+    x, d = build_profile(pf, S['b'])
+    H = _Hand('arr')
+    pn = make_sdvpn(S, st_, H=H)
     labels = pn_labels(case, S, d)
     K = np.asarray(pn.K_tensor, dtype=float)           # decided by clause pn_terms
+    fx, fd = pf.get('fx') or 'arr', pf.get('fd') or 'arr'
+    via = 'setter' if st_['stored'] else 'args'
+    a, kw = hand_over(pn, x, d, via, H, fx, fd, bool(case.get('listargs')), labels)
     if st_['stored']:
-        a, kw = hand_over(pn, x, d, 'setter')
         labels.add('stored')
-    else:
-        a, kw = hand_over(pn, x, d, 'args')
     tot, sabs = judge_total(pn, S, K, st_, x, d, a, kw, labels)
+    H.verify(' [after the energy evaluations]')
+    check_stored(pn, x, d, via)
+    form_labels(labels, H, fx, fd)
     # arguments given vs stored give the same number
     if not st_['stored']:
         pn.x = x
@@ -1232,6 +1570,8 @@ def oracle_pn_total(case):
     require(np.array_equal(np.asarray(pn.disregistry), d), 'energy evaluation changed the stored disregistry')
     run_history(case, S, pn, st_, x, d, labels,
                 lambda pn_, cur, xs, ds, a_, kw_, labs, tag: judge_total(pn_, S, K, cur, xs, ds, a_, kw_, labs))
+    if _DEFER:
+        raise _DEFER[0]
     return labels
 
 
@@ -1262,15 +1602,19 @@ def _total_in_band(pn, S, st_, x, d, K, a, kw, what):
 def oracle_solve(case):
     S = build_pn_system(case['sys'])
     blocked_multi(S)
+    del _DEFER[:]
     st_ = dict(case['set'])
-    x, d = build_profile(case['prof'], S['b'])
+    pf = case['prof']
+    x, d = build_profile(pf, S['b'])
+    fx, fd = pf.get('fx') or 'arr', pf.get('fd') or 'arr'
+    H = _Hand('arr')
     N = len(x)
     if N <= 2 * len(alphas_of(st_)):
         st_['alpha'] = None
     h = case.get('hist')
     sv = h['settings_via'] if h else 'ctor'
     if sv == 'ctor':
-        pn = make_sdvpn(S, st_)
+        pn = make_sdvpn(S, st_, H=H)
     else:
         # the object is built with other settings; the real ones reach it through the setters / solve's keywords
         decoy = dict(st_)
@@ -1285,7 +1629,8 @@ def oracle_solve(case):
     if not case['default_method']:
         kw['min_method'] = case['method']
     labels.add('m_' + case['method'])
-    real = dict(tau=np.array(st_['tau']), alpha=0.0 if st_['alpha'] is None else st_['alpha'], beta=np.array(st_['beta']),
+    tb = st_.get('tbform') or 'arr'
+    real = dict(tau=H(st_['tau'], 'tau', form=tb), alpha=0.0 if st_['alpha'] is None else st_['alpha'], beta=H(st_['beta'], 'beta', form=tb),
                 cutofflongrange=1000.0 if st_['cutoff'] is None else st_['cutoff'], fullstress=st_['fullstress'],
                 cdiffelastic=st_['cdiffelastic'], cdiffsurface=st_['cdiffsurface'], cdiffstress=st_['cdiffstress'])
     if sv == 'setters':
@@ -1297,17 +1642,23 @@ def oracle_solve(case):
         labels.add('history_settings_by_solve_kw')
     # object history: an energy evaluation with another (x, disregistry) given as arguments before the solve
     x2 = d2 = None
+    la = bool(case.get('listargs'))
     if h:
         labels.add('history')
-        x2, d2 = build_profile(step_profile(h, case['prof'], case['prof'], nmax=21), S['b'])
+        p2 = step_profile(h, case['prof'], case['prof'], nmax=21)
+        x2, d2 = build_profile(p2, S['b'])
+        fx2, fd2 = p2.get('fx') or 'arr', p2.get('fd') or 'arr'
         if len(x2) <= 2 * len(alphas_of(st_)):
             h = None
     pre = bool(h) and sv != 'solve_kw'          # (with solve_kw the real settings are not in place before the solve)
     stored_first = pre and bool(h['stored_first'])
+    # the caller's x array and initial guess in the drawn forms; kept: they must be unchanged after the solve
+    xg, dg = H(x, 'x', form=fx), H(d, 'disregistry (initial guess)', form=fd)
+    form_labels(labels, H, fx, fd)
     if pre:
         if stored_first:
-            pn.x = x.copy()
-            pn.disregistry = d.copy()
+            pn.x = xg
+            pn.disregistry = dg
             labels.add('history_eval_between_store_and_solve')
         if len(x2) != N:
             labels.add('history_new_len')
@@ -1316,9 +1667,10 @@ def oracle_solve(case):
         else:
             labels.add('history_same_grid' if np.array_equal(x2, x) else 'history_shifted_grid')
         try:
-            _total_in_band(pn, S, st_, x2, d2, K, (x2.copy(), d2.copy()), {},
+            _total_in_band(pn, S, st_, x2, d2, K, hand_over(pn, x2, d2, 'args', H, fx2, fd2, la, labels)[0], {},
                            'total_energy(x, disregistry) [history: other grid (N %d, spacing %.6g) given as arguments before the solve]'
                            % (len(x2), x2[1] - x2[0]))
+            H.verify(' [energy evaluation before the solve]')
         except ValueError as e:
             if st_['fullstress'] and st_['cdiffstress'] and 'broadcast' in str(e):
                 raise Violation('total_energy with fullstress=True, cdiffstress=True: stress_energy raised ValueError(%s)' % e, key=K_CDIFF)
@@ -1330,10 +1682,10 @@ def oracle_solve(case):
         if stored_first:
             pn.solve(**kw)
         elif st_['via_solve_kw']:
-            pn.solve(x=x, disregistry=d.copy(), **kw)
+            pn.solve(x=xg, disregistry=dg, **kw)
         else:
-            pn.x = x
-            pn.disregistry = d.copy()
+            pn.x = xg
+            pn.disregistry = dg
             pn.solve(**kw)
     except _SolveTimeout:
         return labels | {'timeout_skipped'}
@@ -1351,6 +1703,8 @@ def oracle_solve(case):
             lambda: 'solve moved the end disregistries: first %r -> %r, last %r -> %r' % (d[0].tolist(), d1[0].tolist(), d[-1].tolist(), d1[-1].tolist()))
     require(not np.any(d1[:, 1] != 0.0), lambda: 'solve produced an out-of-plane disregistry component %r' % d1[:, 1].tolist())
     _cmp(pn.x, x, 0.0, 'x after solve')
+    # the caller's x, initial guess (whatever their form: the solution is a new float array) and tau/beta are unchanged
+    H.verify(' [after solve(); x given as %s, initial guess as %s]' % (fx, fd))
     if sv == 'solve_kw':
         # the keywords are documented to change the stored settings
         _cmp(pn.tau, real['tau'], 0.0, 'tau after solve(tau=)'); _cmp(pn.beta, real['beta'], 0.0, 'beta after solve(beta=)')
@@ -1370,12 +1724,21 @@ def oracle_solve(case):
                if stored_first else ''))
     res = pn.res
     require(res is not None and hasattr(res, 'x') and len(res.x) == 2 * (N - 2), 'solve did not keep the optimizer result over 2(N-2) variables')
+    # the stored disregistry IS the minimiser's result (res: "scipy.optimize.minimize result" of the solve): interior edge
+    # and screw components = res.x
+    rx = np.asarray(res.x, dtype=float)
+    require(np.array_equal(d1[1:-1, 0], rx[:N - 2]) and np.array_equal(d1[1:-1, 2], rx[N - 2:]),
+            lambda: 'the disregistry stored by solve is not the minimiser\'s result res.x (initial guess given as %s): edge %r / screw %r, '
+            'res.x = %r' % (fd, d1[1:-1, 0].tolist(), d1[1:-1, 2].tolist(), rx.tolist()))
+    # (res.fun is not compared: scipy's L-BFGS-B may report the value of another iterate than res.x when it stops on maxiter)
     if h and h['post']:
         # ... and the same evaluations again on the solved object: the other grid as arguments, then the stored one
-        _total_in_band(pn, S, st_, x2, d2, K, (x2.copy(), d2.copy()), {},
+        _total_in_band(pn, S, st_, x2, d2, K, hand_over(pn, x2, d2, 'args', H, fx2, fd2, la, labels)[0], {},
                        'total_energy(x, disregistry) [history: other grid (N %d, spacing %.6g) given as arguments after the solve]'
                        % (len(x2), x2[1] - x2[0]))
         _total_in_band(pn, S, st_, x, d1, K, (), {}, 'total_energy() [history: stored solution again after evaluating another grid]')
+        H.verify(' [energy evaluations after the solve]')
+        _cmp(pn.disregistry, d1, 0.0, 'stored solution after further energy evaluations')
         labels.add('history_post_solve')
     if np.abs(d1 - d).max() > 1e-9:
         labels.add('moved')
@@ -1383,6 +1746,8 @@ def oracle_solve(case):
         labels.add('lowered')
     if 'nt' in labels and N < 7:
         labels.discard('nt')
+    if _DEFER:
+        raise _DEFER[0]
     return labels
 
 
@@ -1552,32 +1917,50 @@ CLAUSES = [
            desc='E(a1+k1, a2+k2) = E(a1, a2) for integer periods; nearest mode equals the exact nearest-sample table'),
     Clause('coords', oracle_coords, G.coords_cases, quick=1200, thorough=20000,
            min_share={'nt': 0.45, 'oblique': 0.4, 'npts3': 0.15, 'xvect': 0.18, 'scalar': 0.18,
-                      'history': 0.25, 'history_reload_set': 0.08, 'history_reload_model': 0.08, 'history_swap': 0.08, 'history_other_mode': 0.04},
+                      'history': 0.25, 'history_reload_set': 0.08, 'history_reload_model': 0.08, 'history_swap': 0.08, 'history_other_mode': 0.04,
+                      'form_ro': 0.06, 'form_strided': 0.05, 'form_tuple': 0.04, 'form_npscalar': 0.06, 'form_int': 0.05, 'int_typed': 0.04},
            desc='a12_to_pos, pos_to_xy, xy_to_pos, a12_to_xy, pos_to_a12(single) against independent basis algebra; mutual inverses'),
     Clause('coords_multi', oracle_coords_multi, G.coords_cases, quick=1200, thorough=20000,
-           min_share=_BlockedGuard({'nt': 0.3, 'oblique': 0.25, 'npts3': 0.1, 'npts7': 0.06, 'altvect': 0.12, 'smooth': 0.15, 'nearest': 0.2,
+           min_share=_BlockedGuard({'nt': 0.3, 'oblique': 0.25, 'npts3': 0.1, 'npts7': 0.06, 'altvect': 0.18, 'smooth': 0.15, 'nearest': 0.2,
                                     'history': 0.25, 'history_reload_set': 0.1, 'history_reload_model': 0.08, 'history_swap': 0.1,
-                                    'history_other_mode': 0.05}),
-           desc='pos_to_a12 / xy_to_a12 on 1,2,3,7 positions; E_gsf and delta given a1/a2, pos, x/y, alternative vectors agree'),
+                                    'history_other_mode': 0.05,
+                                    'combo_both_xdefault': 0.18, 'combo_both_xexplicit': 0.18, 'combo_a1only_xdefault': 0.18,
+                                    'combo_a1only_xexplicit': 0.18, 'combo_a2only_xdefault': 0.18, 'combo_a2only_xexplicit': 0.18,
+                                    'altvect_int': 0.04, 'form_ro': 0.05, 'form_strided': 0.045, 'form_tuple': 0.045,
+                                    'form_npscalar': 0.06, 'form_int': 0.03, 'int_typed': 0.03},
+                                   # while K_ALT is open nearly every case with alternative vectors is excluded
+                                   drop_alt=('altvect', 'altvect_int', 'combo_both_xdefault', 'combo_both_xexplicit', 'combo_a1only_xdefault',
+                                             'combo_a1only_xexplicit', 'combo_a2only_xdefault', 'combo_a2only_xexplicit')),
+           desc='pos_to_a12 / xy_to_a12 on 1,2,3,7 positions; E_gsf and delta given a1/a2, pos, x/y agree; every combination of the '
+                'keywords a1vect / a2vect / xvect of all conversion methods and of E_gsf / delta; input forms; caller\'s arrays unchanged'),
     Clause('model', oracle_model, G.model_cases, quick=400, thorough=6000,
            min_share={'nt': 0.3, 'json': 0.3, 'history_load_into_existing': 0.2},
            desc='model() -> JSON/XML text, DataModelDict or file -> GammaSurface: same data, vectors, box, answers'),
     Clause('pn_terms', oracle_pn_terms, G.pn_hist_cases, quick=1500, thorough=25000,
-           min_share={'nt': 0.16, 'mixed': 0.23, 'K_offdiag': 0.13, 'N>120': 0.1, 'cdiffelastic': 0.15, 'tau': 0.15,
-                      'history': 0.2, 'history_same_len_new_spacing': 0.12, 'history_setter_between': 0.15,
-                      'history_settings_changed': 0.12, 'history_new_len': 0.06, 'history_steps>=2': 0.15},
+           min_share=_BlockedGuard({'nt': 0.16, 'mixed': 0.23, 'K_offdiag': 0.13, 'N>120': 0.1, 'cdiffelastic': 0.15, 'tau': 0.15,
+                                    'history': 0.2, 'history_same_len_new_spacing': 0.12, 'history_setter_between': 0.15,
+                                    'history_settings_changed': 0.12, 'history_new_len': 0.06, 'history_steps>=2': 0.15,
+                                    'forms': 0.35, 'history_forms': 0.2, 'int_typed': 0.2, 'xform_int': 0.1, 'dform_int': 0.07,
+                                    'dform_ro': 0.03, 'xform_ro': 0.025, 'dform_strided': 0.035, 'xform_tuple': 0.03, 'list_args': 0.035},
+                                   drop_listarg=('list_args',)),
            desc='disldensity, elastic, long-range, stress (both forms), surface, nonlocal vs independent formula evaluation; quadratic form, rigid shift; '
                 'repeated evaluations on one object (arguments / setters / changed settings)'),
     Clause('pn_total', oracle_pn_total, G.pn_hist_cases, quick=1000, thorough=16000,
            min_share=_BlockedGuard({'nt': 0.15, 'mixed': 0.23, 'wraps': 0.1, 'crystal_rot': 0.15,
                                     'history': 0.17, 'history_same_len_new_spacing': 0.09, 'history_setter_between': 0.12,
-                                    'history_settings_changed': 0.06, 'history_new_len': 0.035}),
+                                    'history_settings_changed': 0.06, 'history_new_len': 0.035,
+                                    'forms': 0.35, 'history_forms': 0.2, 'int_typed': 0.2, 'xform_int': 0.1, 'dform_int': 0.07,
+                                    'dform_ro': 0.03, 'xform_ro': 0.03, 'list_args': 0.035},
+                                   drop_listarg=('list_args',)),
            desc='misfit energy vs dx*sum gamma(delta) by independent conversion; total = sum of the six terms = independent evaluation; '
                 'repeated evaluations on one object'),
     Clause('solve', oracle_solve, G.solve_cases, quick=64, thorough=640, max_share={'timeout_skipped': 0.2},
            min_share=_BlockedGuard({'moved': 0.5, 'lowered': 0.4, 'history': 0.28, 'history_same_len_new_spacing': 0.05,
-                                    'history_eval_between_store_and_solve': 0.07}),
-           desc='solve never raises the (independently evaluated) total energy, end rows/x/out-of-plane component unchanged'),
+                                    'history_eval_between_store_and_solve': 0.07,
+                                    'forms': 0.4, 'int_typed': 0.2, 'dform_int': 0.08, 'dform_ro': 0.03}),
+           desc='solve never raises the (independently evaluated) total energy, end rows/x/out-of-plane component unchanged; initial guess '
+                'and x as float / integer-typed / read-only / non-contiguous arrays, lists, tuples: caller\'s arrays unchanged, stored '
+                'solution = the minimiser\'s result'),
     Clause('halfwidth', oracle_halfwidth, G.halfwidth_cases, quick=32, thorough=320,
            desc='sinusoidal misfit law: arctangent profile of lowest total energy has the classical half-width K b^2/(4 pi^2 gamma0)'),
     Clause('arctan', oracle_arctan, G.arctan_cases, quick=1500, thorough=25000, min_share={'nt': 0.5, 'normalize': 0.2, 'derivative': 0.15},
